@@ -21,11 +21,12 @@
 EXTENDS Naturals, Sequences, FiniteSets, TLC
 
 SharedForms == {"none", "variant", "wrap", "twice", "pos_arg", "pos_arg_bare", "alias", "alias_bare",
-                "text", "field", "variant_field", "dbg", "padded", "pos_dbg"}
+                "text", "field", "variant_field", "dbg", "padded", "pos_dbg", "twice_padded", "alias_dbg", "pos_after_alias"}
 Mentions(s) == s \in {"variant", "wrap", "twice", "pos_arg", "pos_arg_bare", "alias", "alias_bare",
-                      "variant_field", "dbg", "padded", "pos_dbg"}
-\* a `_variant` placeholder carrying a specifier or a non-Display trait
-BadVariantSpec(s) == s \in {"dbg", "padded", "pos_dbg"}
+                      "variant_field", "dbg", "padded", "pos_dbg", "twice_padded", "alias_dbg", "pos_after_alias"}
+\* a `_variant` placeholder carrying a specifier or a non-Display trait - ANY of them ("twice_padded": the second of two;
+\* "alias_dbg": through an alias)
+BadVariantSpec(s) == s \in {"dbg", "padded", "pos_dbg", "twice_padded", "alias_dbg"}
 \* the shared literal is exactly one bare Display placeholder denoting `_variant`
 SharedIsBareVariant(s) == s \in {"variant", "pos_arg_bare", "alias_bare"}
 \* fields the shared literal itself refers to by name
@@ -53,7 +54,7 @@ Own(v, er) ==
 \* the shared literal with `_variant` replaced by inner
 Subst(s, inner) ==
     CASE s \in {"variant", "pos_arg_bare", "alias_bare"} -> inner
-      [] s \in {"wrap", "pos_arg", "alias"} -> <<"T:[">> \o inner \o <<"T:]">>
+      [] s \in {"wrap", "pos_arg", "alias", "pos_after_alias"} -> <<"T:[">> \o inner \o <<"T:]">>
       [] s = "twice" -> inner \o <<"T:-">> \o inner
       [] s = "variant_field" -> inner \o <<"T:/">> \o <<"F0">>
 SharedDefault(s) == CASE s = "text" -> <<"T:shared">> [] s = "field" -> <<"T:f:", "F0">>
